@@ -73,6 +73,15 @@ def rule_r1(rep, repo, f):
                 isinstance(s.value.generators[0].iter, ast.Name) and s.value.generators[0].iter.id in accs:
             accs[s.targets[0].id] = s
             derived[s.targets[0].id] = s.value.generators[0].iter.id
+        elif isinstance(s, ast.Assign) and isinstance(s.targets[0], (ast.Tuple, ast.List)) and isinstance(s.value, ast.Call) and \
+                norm(s.value.func) == "zip" and len(s.value.args) == 1 and isinstance(s.value.args[0], ast.Starred) and \
+                isinstance(s.value.args[0].value, ast.Name) and s.value.args[0].value.id in accs and \
+                all(isinstance(t, ast.Name) for t in s.targets[0].elts):
+            # `a, b, c = zip(*found)`: the columns of an accumulator of tuples; they are empty exactly when it is (and the
+            # unpacking itself fails on an empty accumulator)
+            for t in s.targets[0].elts:
+                accs[t.id] = s
+                derived[t.id] = s.value.args[0].value.id
     stack_calls = [n for n in ast.walk(f.node) if isinstance(n, ast.Call) and
                    norm(n.func) in ("np.concatenate", "np.vstack", "np.hstack", "np.stack", "np.array") and n.args
                    and isinstance(n.args[0], ast.Name) and n.args[0].id in accs]
